@@ -92,6 +92,13 @@ func (filter *SearchableQueryFilter) ChangeSearchableOperator(expr *pg_query.A_E
 	// !~~* - NOT ILike
 	case "<>", "!~~", "!~~*":
 		expr.Name[0].GetString_().Sval = "<>"
+	default:
+		return
+	}
+	// a LIKE / ILIKE node that now carries a comparison operator has to become an ordinary operator node:
+	// the deparser prints a LIKE node by its kind and would emit no operator at all
+	if expr.Kind == pg_query.A_Expr_Kind_AEXPR_LIKE || expr.Kind == pg_query.A_Expr_Kind_AEXPR_ILIKE {
+		expr.Kind = pg_query.A_Expr_Kind_AEXPR_OP
 	}
 }
 
